@@ -362,6 +362,7 @@ void World::yield_point(int evkind, int a, int b, int c, int d) {
     Task& t = *tasks_[g_rank];
     st_.yields++;
     t.soft_calls = 0;
+    if (inline_mode_) { st_.steps++; if (evkind >= 0) add_event(t.rank, evkind, a, b, c, d); return; }
     // seeded stall injection
     if (o_.stall_permille > 0) {
         if (t.stall_countdown == -1) {
@@ -385,6 +386,7 @@ void World::block_until(const std::function<bool()>& pred, int evkind, int a, in
     if (g_rank < 0) return;
     if (aborting_) { if (std::uncaught_exceptions() == 0) throw Abort(); return; }
     if (pred()) return;
+    if (inline_mode_) fail("deadlock", "the only rank blocks on a condition nobody else can satisfy");
     Task& t = *tasks_[g_rank];
     t.state = Task::BLOCKED;
     t.pred = pred;
@@ -397,7 +399,7 @@ void World::block_until(const std::function<bool()>& pred, int evkind, int a, in
 
 void World::failed_poll() {
     if (g_rank < 0) return;
-    tasks_[g_rank]->failed_polls++;
+    if (++tasks_[g_rank]->failed_polls > 100000 && inline_mode_) fail("hang", "the only rank polls without ever succeeding");
 }
 
 void World::progress() {
@@ -430,6 +432,28 @@ Result World::run(const std::function<void(int)>& fn) {
     const int P = o_.nranks;
     const long N_DEMOTE = 2 * P + 4, N_HANG = 1000;
     tasks_.clear();
+    if (o_.inline_single && P == 1) {
+        // single rank on the caller's stack: every MPI call completes on the spot (self-sends match at once, collectives of one)
+        inline_mode_ = true;
+        o_.latency = false; o_.lazy_isend_pct = 0; o_.stall_permille = 0;
+        tasks_.push_back(std::unique_ptr<Task>(new Task));
+        Task& t = *tasks_[0];
+        t.started = true;
+        g_rank = 0;
+        try { fn(0); }
+        catch (Abort&) {}
+        catch (std::exception& e) { t.has_exc = true; t.exc = e.what(); }
+        catch (...) { t.has_exc = true; t.exc = "unknown exception"; }
+        g_rank = -1;
+        t.state = Task::DONE;
+        if (t.has_exc && !verdict_set_) set_verdict("exception", "rank 0: " + t.exc);
+        Result res;
+        res.verdict = verdict_set_ ? verdict_ : "ok"; res.detail = detail_; res.hash = hash_; res.order_hash = ohash_; res.p2p_hash = phash_;
+        st_.vtime = now_; res.st = st_; res.choices = choices_; res.choice_kinds = choice_kinds_;
+        res.rank_exceptions.push_back(t.has_exc ? t.exc : "");
+        g_world = nullptr; fn_ = nullptr;
+        return res;
+    }
     for (int r = 0; r < P; r++) {
         std::unique_ptr<Task> t(new Task);
         t->rank = r;
